@@ -127,3 +127,37 @@ META = {
  },
 }
 NOT_APPLICABLE = {}
+
+
+# what the thorough tier adds to the quick tier (appended to level_note / technique by bin/mkmanifest.py); for the other properties
+# the two tiers evaluate the same rule instances (every instance is cheap once the facts are extracted)
+THOROUGH = {
+ "C01": {"note": " Thorough tier adds the type-level part of TYPESTATE decided by the compiler itself: 4 compile-fail witnesses (E0624 private converter, E0616 private field, E0599 no authorizer on UnverifiedBiscuit, E0277 no key-less conversion), each with a compiling twin, built against the analysed tree with `cargo +nightly test --doc` (nothing is executed).",
+         "technique": "; thorough tier: compile-fail witnesses with compiling twins (rustc privacy / trait checking)"},
+ "C09": {"note": " Thorough tier also extracts a second feature configuration of biscuit-auth (bwk, uuid, serde-error) and runs REACH from the public functions it adds.",
+         "technique": "; thorough tier: the same reachability analysis over a second feature configuration"},
+ "C17": {"note": " Thorough tier also analyses the bwk/uuid/serde-error configuration: REACH from the added functions and WIRE/USED rules for the BiscuitWebKey <-> BiscuitWebKeyRepr key encoding.",
+         "technique": "; thorough tier: second feature configuration (BiscuitWebKey encoding: may-depend and error-propagation rules)"},
+}
+
+
+# rule families added after the second seeding round (appended to the technique field)
+ADDED = {
+ "C01": "; match-table rule for the per-block external-signature scheme; inlining of delegated payload generators",
+ "C02": "; last-block selector rule for the seal; verbatim-copy rule (single-definition def chain) for root_key_id; table-threading rules of the append paths",
+ "C03": "; per-evaluation scope-argument rule (the trust passed to query_match* is the variable computed from that query's scopes); verbatim-copy detection in Rule::translate",
+ "C04": "; per-evaluation scope-argument rule; verbatim-copy detection in Rule::translate",
+ "C05": "; both-operands rule (flow-sensitive may-depend per return, with a dominating-superset exception) for Origin::union",
+ "C06": "; operand-role oracle for the non-commutative operators with pattern-binding tracking; stack pop-order rule; error-discipline rule for every symbol lookup",
+ "C07": "; match-table rule for the scheme selection; single-use rule for the token-level table in the block loader",
+ "C08": "; last-block selector rule",
+ "C09": "; allow-list premises re-evaluated against the rule instances of the property they cite",
+ "C10": "; position rule fact-budget-before-fixpoint-exit; CFG rules on Authorizer::run (time recorded on every exit, evaluated-marker only under the success edge); unit agreement across snapshots",
+ "C12": "; sibling rule for the two block accessors; single-use rule for the token-level table",
+ "C13": "; unit agreement (as_nanos/from_nanos), zero-is-none guard, snapshot-table extension pairing, check-kind gate agreement of the two block loaders, saved-version dependence rule",
+ "C14": "; producer/consumer field-coverage rule by projected type (parser result vs loaders, block carriers vs printers); pop-order rule; sibling rule for the block accessors",
+ "C16": "; gate-comparison rule for check kinds; unconditional-gate rule (not inside a loop or closure)",
+ "C17": "; remainder rule for string conversions built on grammar parsers (callee ends with eof, or the remainder is used); whole-run hex decoding rule",
+ "C18": "; parallel-binding rule over the generated `let` token sequences",
+ "C20": "; parallel-binding rule over the generated `let` token sequences",
+}
